@@ -739,7 +739,10 @@ def gen_boundary(rng, count):
             v1 = {p: rng.randint(20, 300) for p in parties}
             v2 = {p: rng.randint(20, 300) for p in parties}
             n = rng.randint(2, 9)
-            yield dict(unit='tree', tree=tree, votes=[v1, v2] if rng.random() < 0.75 else v1, args={'n_seats': n}, style=rng.choice(['pos', 'kw']))
+            args = {'n_seats': n}
+            if rng.random() < 0.35:     # seat caps reach the calculator and the evaluator alike
+                args['max_seats'] = {p: rng.randint(1, 4) for p in parties if rng.random() < 0.6}
+            yield dict(unit='tree', tree=tree, votes=[v1, v2] if rng.random() < 0.75 else v1, args=args, style=rng.choice(['pos', 'kw']))
         elif k == 13:  # the adjusted seat count by constituency: the calculator is a part (LevelOverhangByConstituency), ByParty distributes
             spec = ['ha', [rng.choice(['d_hondt', 'sainte_lague'])]]
             ap = {c: rng.randint(1, 4) for c in consts}
